@@ -78,6 +78,26 @@ func main() {
 			}
 		}
 	} else {
+		for _, c := range append(append([]*Contract{}, eng.viewList...), func() []*Contract {
+			var cs []*Contract
+			for _, k := range eng.contractOrder {
+				cs = append(cs, eng.contracts[k])
+			}
+			return cs
+		}()...) {
+			if c.Stale == "" {
+				continue
+			}
+			sel := len(want) == 0 || len(c.Props) == 0
+			for _, p := range c.Props {
+				if want[p] {
+					sel = true
+				}
+			}
+			if sel {
+				rep.Errors = append(rep.Errors, "stale-contract: "+c.Key+": "+c.Stale+" ("+c.Header+")")
+			}
+		}
 		for _, k := range eng.contractOrder {
 			c := eng.contracts[k]
 			if c.IsIface || c.Trusted {
